@@ -54,6 +54,7 @@ def run(rep):
     rep.run(complex_vectors, table)
     rep.run(formulas)
     rep.run(definitions)
+    rep.run(netfold)
 
 
 def complex_vectors(rep, table):
@@ -317,3 +318,8 @@ TWINS = [
          old="            for s_node, _, data in G.in_edges(r, data=True):", new="            for s_node, _r, data in G.in_edges(r, data=True):"),
     dict(name="delta with reordered terms", file=DF, old="delta = int(n_complexes - n_link - rank)", new="delta = int(-rank + n_complexes - n_link)"),
 ]
+
+
+def netfold(rep):
+    from ..rules import netfold as NF
+    NF.check(rep, "O19.2", (ST, DF, "synkit/CRN/Hypergraph/conversion.py"), "rank(S) and the deficiency are wrong")
